@@ -27,6 +27,30 @@ ADV = 0.0  # a draw that always advances the counter (rand < base**-c for every 
 STAY = 1.0 - 2.0**-53  # the largest double below 1: never advances for c' >= 1
 
 
+class _FrozenTime:
+    """zipfile stamps every member with time.localtime(time.time()); a fixed clock makes the
+    bytes written by save() a pure function of the sketch (the file is part of the state)."""
+
+    def __init__(self, real):
+        self._real = real
+
+    def time(self):
+        return 1704067200.0
+
+    def localtime(self, t=None):
+        return self._real.gmtime(1704067200.0)
+
+    def __getattr__(self, name):
+        return getattr(self._real, name)
+
+
+def freeze_zip_clock():
+    import zipfile
+
+    if not isinstance(zipfile.time, _FrozenTime):
+        zipfile.time = _FrozenTime(zipfile.time)
+
+
 def windows(x, n):
     if len(x) <= n:
         return [x]
@@ -41,6 +65,32 @@ class CMSys(E1):
         self.dir = scratch_dir
         self.modes = set(modes)
         self._sl_cache = {}
+        self.file = os.path.join(scratch_dir, "sl.npz")
+        freeze_zip_clock()
+
+    # the one scratch file every sketch of the system is saved to is part of the state
+    def _sync(self):
+        """Re-read the scratch file after the library wrote (or should have written) it."""
+        try:
+            with open(self.file, "rb") as f:
+                self._file_now = f.read()
+        except FileNotFoundError:
+            self._file_now = b""
+
+    _file_now = b""
+
+    def ext_capture(self):
+        return self._file_now
+
+    def ext_restore(self, x):
+        if x == self._file_now:
+            return
+        if x:
+            with open(self.file, "wb") as f:
+                f.write(x)
+        elif os.path.exists(self.file):
+            os.remove(self.file)
+        self._file_now = x
 
     def factory(self):
         c = self.cfg
@@ -98,6 +148,8 @@ class CMSys(E1):
         if c.get("saveload", True):
             for s in range(S):
                 yield ("saveload", s)
+            for s in range(S):
+                yield ("savecheck", s)
 
     # ------------------------------------------------------------------
     def universe(self, model):
@@ -132,6 +184,14 @@ class CMSys(E1):
             pre_n = int(sk.n_added())
             pre_c = self.min_counter(sk, ev[2]) if op == "add" else None
             was_top = {j for j in uni if self.at_ceiling(sk, j)}
+        probe_key = None
+        if "bounds" in self.modes and op != "set":
+            # read-your-key around the mutation: the LAST read before the event and the
+            # FIRST read after it are of the same key (a one-entry read memo that misses an
+            # invalidation path is only visible in exactly this pattern)
+            pk = sorted(self.alpha)
+            probe_key = pk[(len(model[s]) + sum(min(c, 7) for _, c in model[s]) + len(op)) % len(pk)]
+            work[s].query(probe_key)
         if op == "add":
             _, s, k, v, dr = ev
             if self.is_log:
@@ -159,19 +219,52 @@ class CMSys(E1):
                 work[s].cms[r, ck[r]] = cval
             m[s][k] = m[s].get(k, 0) + tval
         elif op == "saveload":
-            before = capture(work[s], self.skip)
-            hit = self._sl_cache.get(before)
+            # the sketch is saved and REPLACED by what load() returns.  Memoised (result and
+            # file bytes) only while no state outside the objects exists (pristine globals)
+            memo_ok = not (self.G.capture() if hasattr(self, "G") else ())
+            before = (capture(work[s], self.skip), self.ext_capture())
+            hit = self._sl_cache.get(before) if memo_ok else None
             if hit is None:
-                path = os.path.join(self.dir, "sl.npz")
-                work[s].save(path)
-                work[s] = type(work[s]).load(path)
+                work[s].save(self.file)
+                self._sync()
+                work[s] = type(work[s]).load(self.file)
                 if self.is_log:
                     SK.install_draws(work[s], [])
-                self._sl_cache[before] = capture(work[s], self.skip)
+                if memo_ok and not (self.G.capture() if hasattr(self, "G") else ()):
+                    self._sl_cache[before] = (capture(work[s], self.skip), self.ext_capture())
             else:
-                restore(work[s], hit, self.skip)
+                restore(work[s], hit[0], self.skip)
+                self.ext_restore(hit[1])
+        elif op == "savecheck":
+            # checkpointing: the sketch is saved to the shared scratch path and KEPT; what
+            # load() returns from that path right now must be this sketch
+            work[s].save(self.file)
+            self._sync()
+            try:
+                L = type(work[s]).load(self.file)
+            except Exception as e:
+                probs.append(f"sketch {s}: load() of the file just written by save() raised "
+                             f"{type(e).__name__}: {e}")
+                L = None
+            if L is not None:
+                diff = SK.persist_diff(work[s], L)
+                if diff:
+                    probs.append(f"sketch {s}: after save() to the shared scratch path, load() of "
+                                 f"that path returns a different sketch (differs in {diff})")
+                del L
         else:
             raise MachineryError(f"unknown event {ev}")
+        if probe_key is not None:
+            q = int(work[s].query(probe_key))
+            true2 = m[s].get(probe_key, 0)
+            lo = min(true2, U32)
+            if q < lo:
+                probs.append(
+                    f"sketch {s}: reading {probe_key!r} just before and just after {op}: the second "
+                    f"read returns {q}, below min(true, 2^32-1) = {lo} (stale read)"
+                )
+            elif true2 == 0 and all(c == 0 for c in m[s].values()) and q != 0:
+                probs.append(f"sketch {s}: empty sketch estimates {q} for {probe_key!r}")
         if need_pre:
             sk = work[s]
             post = self.ests(sk, uni)
